@@ -233,18 +233,17 @@ def run(rep, tier):
     # ---------------------------------------------------------------- R4.6
     proc = F.one("votca::tools::HistogramNew::Process")
     rep.analysed(proc)
-    d = [dd for dd in proc.decls.values() if dd.get("init") is not None and "floor" in show(dd["init"]) or (dd.get("init") is not None and "step_" in show(dd["init"]))]
-    ok, got = False, "index declaration not found"
-    if d:
-        val = Fold(proc).ev(d[0]["init"], {})
-        got = str(val)
-        want = Fn("toint")(Fn("floor")((S("v") - S("min_")) / S("step_") + sp.Rational(1, 2)))
-        try:
-            ok = sp.simplify(val - want) == 0
-        except Exception:
-            ok = False
-    rep.check(ok, "R4.6", "nearest-bin", "bin = floor((v-min)/step + 1/2)", "HistogramNew::Process bins values with %s: not the bin whose centre is nearest "
-              "(values just below the range are counted in the first bin)" % got, proc.loc(d[0] if d else None), sample=True)
+    fo_p = Fold(proc).run()
+    acc = [e for e in fo_p.events if e["kind"] == "store" and e.get("idx") and e.get("target_node") is not None
+           and unwrap(e["target_node"]).get("k") == "mcall" and unwrap(e["target_node"]).get("callee") == "votca::tools::Table::y"]
+    if len(acc) != 1 or isinstance(acc[0]["idx"][0], (sp.Matrix, tuple)):
+        rep.broken("R4.6", "HistogramNew::Process: expected one accumulation data_.y(index) += w, found %d" % len(acc))
+    else:
+        fl = {a_ for a_ in sp.preorder_traversal(acc[0]["idx"][0]) if str(getattr(a_, "func", "")) == "floor"}
+        want = (S(proc.j["params"][0]["name"]) - S("min_")) / S("step_") + sp.Rational(1, 2)
+        ok = len(fl) == 1 and is_zero(list(fl)[0].args[0] - want)
+        rep.check(ok, "R4.6", "nearest-bin", "bin = floor((v-min)/step + 1/2)", "HistogramNew::Process bins values with %s: not the bin whose centre is nearest "
+                  "(values just below the range are counted in the first bin)" % sorted(str(a_) for a_ in fl), proc.loc(acc[0]["node"]), sample=True)
     rep.assumptions += ["pair search completeness and exclusions are C03's subject; bin memory safety is C13's",
                         "M_PI literal compared numerically with pi (1e-12); all other factors exactly"]
     rep.trusted.append("sympy exact polynomial arithmetic")
